@@ -196,8 +196,67 @@ def check(case, rec):
         tf_l.close()
 
 
+def sensor_cases():
+    from props.C14 import scale_variants
+    sensors = [(n, g) for (n, g) in scale_variants() if g and g[0]['type'] in ('RTD', 'Thermistor', 'Strain', 'Thermocouple')]
+
+    def fn(shard, nshards):
+        i = 0
+        for (name, graph) in sensors:
+            for t in ('f64', 'f32', 'i16'):
+                for n in (1, 4):
+                    i += 1
+                    if i % nshards == shard:
+                        yield {'sensor': name, 'graph': graph, 'type': t, 'n': n}
+    return fn
+
+
+def check_sensor(case, rec):
+    """sensor scalings: repeatable, lazy == eager, elementwise and raw data untouched (values are C17's business)"""
+    from nptdms import TdmsFile
+    t = case['type']
+    n = case['n']
+    raw = np.array([1.0 + 0.25 * i for i in range(n)], dtype=np_dtype(t))
+    p = make_path('g', 'c')
+    seg = {'be': False, 'interleaved': False,
+           'entries': [{'path': p, 'hdr': 'full', 'type': t, 'n': n, 'props': SC.graph_props(case['graph'], True)}],
+           'active': [[p, t, n]], 'nchunks': 2, 'data': {p: [raw.tobytes(), raw.tobytes()]}}
+    data, _i, _l = encode_file({'segments': [seg]})
+    rec.nontrivial(True)
+    rec.label('sensor=' + case['sensor'], 'raw=' + t)
+    want_raw = raw.tobytes() * 2
+    try:
+        tf_e = TdmsFile.read(io.BytesIO(data))
+        tf_l = TdmsFile.open(io.BytesIO(data))
+        che, chl = tf_e['g']['c'], tf_l['g']['c']
+        first = np.asarray(che.read_data())
+        again = np.asarray(che.read_data())
+        cached = np.asarray(che[:])
+        lazy = np.asarray(chl[:])
+        win = np.asarray(chl.read_data(1, max(n - 1, 1)))
+        raw_after = le_bytes(np.asarray(che.raw_data))
+        lazy_raw = le_bytes(np.asarray(chl.read_data(scaled=False)))
+        tf_l.close()
+    except Exception as e:      # noqa
+        rec.violation('sensor:raised', describe_exc(e), key=exc_key(e))
+        return
+    if raw_after != want_raw or lazy_raw != want_raw:
+        rec.violation('raw_modified', '%s on %s raw data: raw data changed by a scaled read' % (case['sensor'], t))
+    if first.tobytes() != again.tobytes() or first.tobytes() != cached.tobytes():
+        rec.violation('repeatable', '%s on %s: repeated scaled reads differ: %r / %r / %r' % (
+            case['sensor'], t, first[:3], again[:3], cached[:3]))
+    if le_bytes(lazy) != le_bytes(first):
+        rec.violation('lazy_eq_eager', '%s on %s: lazy %r, eager %r' % (case['sensor'], t, lazy[:3], first[:3]))
+    if le_bytes(win) != le_bytes(first[1:1 + max(n - 1, 1)]):
+        rec.violation('elementwise:lazy', '%s on %s: window differs from slice of the scaled data' % (case['sensor'], t))
+
+
 def jobs(tier):
     if tier == 'quick':
-        return [Job('scale_graphs', 'hyp', lambda: cases(), n=4000)]
+        return [Job('scale_graphs', 'hyp', lambda: cases(), n=4000),
+                Job('sensor_scalings_leave_raw_data_alone', 'enum', sensor_cases(), exhaustive=True, check=check_sensor,
+                    note='12 sensor scalings x 3 raw types x 2 lengths: repeatable, lazy==eager, raw untouched')]
     return [Job('scale_graphs', 'hyp', lambda: cases(), n=120000),
-            Job('with_noop_scales', 'hyp', lambda: cases(noop=True), n=30000)]
+            Job('with_noop_scales', 'hyp', lambda: cases(noop=True), n=30000),
+            Job('sensor_scalings_leave_raw_data_alone', 'enum', sensor_cases(), exhaustive=True, check=check_sensor,
+                note='12 sensor scalings x 3 raw types x 2 lengths: repeatable, lazy==eager, raw untouched')]
